@@ -194,12 +194,16 @@ DISK_ROOTS = {
     # two features that are each fine alone
     'pkg+coverage': lambda r: ['--path', r, '-s', 'vtw', '--coverage', os.path.join(r, 'covdir')],
     'coverage': lambda r: ['--path', r, '--coverage', os.path.join(r, 'covdir')],
+    # the package given with its directory: module names get the prefix vtw.
+    'package-path': lambda r: ['--package-path', os.path.join(r, 'vtw'), 'vtw'],
 }
 DISK_FILTERS = [[], ['-t', 'a0', '-t', 'b1'], ['-t', '(?i)A1 ', '-t', 'b0'],
                 ['-t', r'_(a)0 .*\1', '-t', r'_(b)1 .*\1'], ['-t', '!a', '-t', '!(?i)b2 '],
                 ['-m', 'sub', '-t', '0'], ['--layer', 'LA|LB', '-t', '(?i)b'],
                 # negated module patterns that match a *package* name only
-                ['-m', '!sub$'], ['-m', '!^vtw$', '-m', r'!\.sub$'], ['-m', 'vtw', '-m', r'!vtw(?!\.sub)']]
+                ['-m', '!sub$'], ['-m', '!^vtw$', '-m', r'!\.sub$'], ['-m', 'vtw', '-m', r'!vtw(?!\.sub)'],
+                # module patterns that look at the package prefix
+                ['-m', r'^vtw\.'], ['-m', '!vtw'], ['-m', r'^(amod|sub)']]
 DISK_IDS = {'c0': ('test_c0 (vtw.cmod.tests.T_c0.test_c0)', 'vtw.cmod.tests', 'zope.testrunner.layer.UnitTests'),
             'c1': ('test_c1 (vtw.cmod.tests.T_c1.test_c1)', 'vtw.cmod.tests', 'zope.testrunner.layer.UnitTests')}
 for _sp in (DISK_A, DISK_B):
